@@ -97,6 +97,16 @@ func c05Body(x *engine.X) {
 	}
 	threadName := func() string { return s.CurrentName() }
 	finishedPosters := 0
+	// Pending() is exact while a batch is being run, too: a handler that was posted (Post has returned) and has not
+	// finished is in flight, so inside any posted handler Pending() is at least that many.
+	postsReturned, finished := 0, 0
+	var midBatchFail string
+	midBatch := func() {
+		lower := postsReturned - finished
+		if got := ioc.Pending(); got < int64(lower) && midBatchFail == "" {
+			midBatchFail = fmt.Sprintf("inside a posted handler Pending()=%d although %d handlers whose Post has returned have not finished yet", got, lower)
+		}
+	}
 	writeDone := 0
 	s.Go("L", func() {
 		buf := make([]byte, 4)
@@ -137,16 +147,20 @@ func c05Body(x *engine.X) {
 			for k := 0; k < nposts[pi]; k++ {
 				k := k
 				err := ioc.Post(func() {
+					midBatch()
 					ran = append(ran, postRec{pi, k, threadName()})
 					if nested && pi == 0 && k == 0 {
-						if err := ioc.Post(func() { ran = append(ran, postRec{9, 0, threadName()}) }); err != nil {
+						if err := ioc.Post(func() { midBatch(); ran = append(ran, postRec{9, 0, threadName()}); finished++ }); err != nil {
 							panic(fmt.Sprintf("nested Post: %v", err))
 						}
+						postsReturned++
 					}
+					finished++
 				})
 				if err != nil {
 					panic(fmt.Sprintf("Post: %v", err))
 				}
+				postsReturned++
 			}
 			finishedPosters++
 		})
@@ -208,6 +222,9 @@ func c05Body(x *engine.X) {
 		if c != 1 {
 			x.Fail("post/handler-not-once", "handler %v ran %d times", k, c)
 		}
+	}
+	if midBatchFail != "" {
+		x.Fail("post/Pending-inexact-mid-batch", "%s (posts %v nested %v)", midBatchFail, nposts, nested)
 	}
 	if got := ioc.Posted(); got != 0 {
 		x.Fail("post/Posted-inexact", "Posted()=%d at quiescence", got)
